@@ -75,17 +75,20 @@ class SameNamedTransform:
         # only along axis 0 (never transformed here)
         yl = rng.standard_normal((2, 5, 6)) + (0 if real_in_ else 1j * rng.standard_normal((2, 5, 6)))
         nd = self.name.endswith("2") or self.name.endswith("n")
-        forms = ([{"s": (4, 7)}, {"s": (4, 7), "axes": (1, 2)}, {"s": (7, 3), "axes": (2, 1)}, {"axes": (2, 1)}] if nd
+        forms = ([{"s": (4, 7)}, {"s": (4, 7), "axes": (1, 2)}, {"s": (7, 3), "axes": (2, 1)}, {"axes": (2, 1)}, {"s": (4, 7), "axes": None},
+                  {"_pos": ((4, 7),)}, {"_pos": ((4, 7), None)}, {"_pos": ((4, 7), (1, 2))}] if nd
                  else [{"n": 4}, {"n": 9}, {"n": 7, "axis": 1}, {"axis": 1}])
         for kw in forms:
-            lab = ",".join(f"{k}={v}" for k, v in kw.items())
+            kw = dict(kw)
+            pos = kw.pop("_pos", ())          # the same arguments given positionally
+            lab = ",".join([repr(v) for v in pos] + [f"{k}={v}" for k, v in kw.items()])
             try:
-                b = ref(yl, **kw)
+                b = ref(yl, *pos, **kw)
             except Exception:
                 continue
             for be in ("numpy", "dask"):
                 try:
-                    a = got(yl if be == "numpy" else da.from_array(yl, chunks=(1, -1, -1)), **kw)
+                    a = got(yl if be == "numpy" else da.from_array(yl, chunks=(1, -1, -1)), *pos, **kw)
                     av = a.compute() if be == "dask" else a
                 except Exception as e:
                     out.append(Mismatch(f"{where}.{be}.length-args[{lab}]", f"{type(e).__name__}: {e}"[:140], f"scipy.fft.{self.name} result of shape {b.shape}"))
